@@ -108,7 +108,7 @@ def run(v, tier, seed, replay):
         for k, es in sorted(byid.items(), key=lambda x: str(x[0])):
             es = sorted(es, key=lambda e: hh(e, "%d-%d-%d" % (seed, ds, dl)))
             chosen += es[:reps]
-        scripts = suvec.shape_scripts(chosen, ds, dl, flags_of=lambda i, e: [0, 1, 4, 5][hh(e, "f%d" % seed) % 4])
+        scripts = suvec.shape_scripts(chosen, ds, dl, flags_of=lambda i, e: [0, 1, 4, 5][hh(e, "f%d" % seed) % 4], robbed=(pi % 2 == 1))   # every second pair: empties made by theft
         segs, info = suvec.run_paths(exe, scripts)
         # a sanitizer report kills the driver: record it and continue behind the offending script
         guard = 0
